@@ -120,6 +120,19 @@ func runCase(line string) string {
 				out = append(out, "noreturn")
 			}
 			done = nil
+		case "shutdown":
+			svc.Shutdown()
+			if done == nil {
+				out = append(out, "shutdown")
+				continue
+			}
+			select {
+			case <-done:
+				out = append(out, "stopped")
+			case <-time.After(3 * time.Second):
+				out = append(out, "noreturn")
+			}
+			done = nil
 		case "connect":
 			out = append(out, guard(func() string {
 				cctx, cancel := context.WithTimeout(ctx, 400*time.Millisecond)
